@@ -19,7 +19,9 @@ func init() {
 		Run: runC09,
 		Explanation: "Decides structural necessary conditions of 'formatting preserves the program': " +
 			"Q1 unquote/quote agreement: the set U of AST fields whose value derives from unquote() in the grammar actions is computed from grammar.go; in the functions reachable from Ast.format every value loaded from a field in U reaches the output only through quoteString (never through a raw write), " +
-			"Q2 quoteString copies a byte unescaped only if it is >= 0x20 and neither a double quote nor a backslash, and every escape form it emits is accepted by the lexer's string rule (regexp constant from tokenizer.go) and has an arm in unquoteBytes. " +
+			"Q2 quoteString copies a byte unescaped only if it is >= 0x20 and neither a double quote nor a backslash, and every escape form it emits is accepted by the lexer's string rule (regexp constant from tokenizer.go) and has an arm in unquoteBytes, " +
+			"Q5 every path through CallStm.format looks at each keyword modifier flag (Local, Preflight, Volatile) or crosses Modifiers == nil (must-pass-through with predicate helpers expanded): a path that does not prints the same text with and without the keyword, " +
+			"Q6 the same for a frozen table of 56 content-carrying AST fields and their node's format method. " +
 			"NOT decided: idempotence, comment placement, number printing, topological order, include-expanded rendering.",
 		Assumptions: commonAssumptions,
 	}
